@@ -49,6 +49,8 @@ def run(ctx):
     d6_encoder(ctx)
     from ._shared import encoding_agreement
     encoding_agreement(ctx, 'D7', kinds=('json',))
+    from ._shared import inplace_rewrites_truncate
+    inplace_rewrites_truncate(ctx, 'D7')
 
 
 def d1_no_cache(ctx, c, reader):
